@@ -942,6 +942,109 @@ def check_guard(ctx, crate, E, g):
             return False, "no dominating check bounds argument %d of %s below %d (found %s)" % (
                 g["arg"], g["callee"], g["lt"], best)
         return False, "call to %s not found in %s" % (g["callee"], g["fn"])
+    if kind == "all":
+        txts = []
+        for g2 in g["of"]:
+            ok2, t2 = check_guard(ctx, crate, E, g2)
+            if not ok2:
+                return False, t2
+            txts.append(t2)
+        return True, "; ".join(txts)
+    if kind == "sized_by":
+        # the vector that ends up in the sink has <count>() + plus elements: it receives one
+        # push per element of a collection created with <count>() elements, plus `plus` pushes
+        # after that loop on every path; or it is resized / created with that length
+        fa = E.fa(g["fn"])
+        ls = guarded_locals(fa, g)
+        S = Sym(E, fa)
+
+        def is_count(op, plus):
+            e = strip_casts(S.operand(op))
+            c = 0
+            if e[0] == "binop" and e[1].startswith("Add") and strip_casts(e[3])[0] == "const":
+                c = strip_casts(e[3])[1]
+                e = strip_casts(e[2])
+            return e[0] == "call" and short(e[1]) == g["count"] and c == plus
+
+        def vec_of(op):
+            pl = op_place(op)
+            for _ in range(8):
+                if pl is None:
+                    return None
+                if pl["l"] in ls and all(x == "*" for x in pl["p"]):
+                    return pl["l"]
+                d = fa.single_def(pl["l"])
+                if d is None or d[2] != "assign" or d[3]["k"] not in ("use", "ref"):
+                    return None
+                pl = op_place(d[3]["op"]) if d[3]["k"] == "use" else d[3]["place"]
+            return None
+        pushes = [(b, t) for b, t in fa.calls()
+                  if (callee_of(t) or {}).get("name") == "push" and t["args"] and vec_of(t["args"][0]) is not None]
+        ok_b, err_b, _ = result_exits(fa)
+        # created / resized with the length
+        for b, t in fa.calls():
+            nm = (callee_of(t) or {}).get("name")
+            if nm == "resize" and len(t["args"]) >= 2 and vec_of(t["args"][0]) is not None and \
+                    is_count(t["args"][1], g["plus"]) and \
+                    not any(pb in fa.reachable(b) and pb != b for pb, _ in pushes) and \
+                    all(fa.dominates(b, o) for o in ok_b):
+                return True, "%s is resized to %s() + %d" % (g["local"], g["count"], g["plus"])
+            if nm == "from_elem" and len(t["args"]) == 2 and t["dest"]["l"] in ls and not pushes and \
+                    is_count(t["args"][1], g["plus"]):
+                return True, "%s is created with %s() + %d elements" % (g["local"], g["count"], g["plus"])
+        # one push per element of a collection of <count>() elements
+        for nb, nt in fa.calls():
+            if not any(strip_generics(x).endswith("::next") for x in callee_paths(nt)):
+                continue
+            cur, sized = nt["args"][0], False
+            for _ in range(12):
+                pl = op_place(cur)
+                if pl is None:
+                    break
+                ds = [d for d in fa.defs().get(pl["l"], []) if d[2] != "partial"]
+                if len(ds) != 1:
+                    break
+                d = ds[0]
+                if d[2] == "call":
+                    nm = (callee_of(d[3]) or {}).get("name")
+                    if nm == "from_elem" and len(d[3]["args"]) == 2:
+                        sized = is_count(d[3]["args"][1], 0)
+                        break
+                    if nm not in ("into_iter", "iter", "iter_mut", "deref", "deref_mut", "as_slice", "enumerate"):
+                        break
+                    cur = d[3]["args"][0] if d[3]["args"] else None
+                elif d[3]["k"] in ("use", "cast"):
+                    cur = d[3]["op"]
+                elif d[3]["k"] == "ref":
+                    cur = {"c": d[3]["place"]}
+                else:
+                    break
+                if cur is None:
+                    break
+            if not sized:
+                continue
+            sw = fa.term(nb).get("t")
+            st = fa.term(sw) if sw is not None else None
+            if st is None or st["k"] != "switch":
+                continue
+            some_t = [tg for v, tg in zip(st["vals"], st["targets"]) if v == 1]
+            none_t = [tg for v, tg in zip(st["vals"], st["targets"]) if v == 0] or [st["otherwise"]]
+            if not some_t:
+                continue
+            body = fa.reachable(some_t[0], avoid={nb})
+            after = fa.reachable(none_t[0], avoid={nb})
+            inloop = [pb for pb, _ in pushes if pb in body and pb not in after]
+            tail = [pb for pb, _ in pushes if pb in after]
+            before = [pb for pb, _ in pushes if pb not in body and pb not in after]
+            one_per_trip = len(inloop) == 1 and nb not in fa.reachable(some_t[0], avoid={inloop[0]})
+            tail_ok = len(tail) == g["plus"] and all(
+                o not in fa.reachable(none_t[0], avoid={pb}) for pb in tail for o in ok_b)
+            if one_per_trip and tail_ok and not before:
+                return True, "%s gets one element per entry of a list of %s() elements and %d after it" % (
+                    g["local"], g["count"], g["plus"])
+        return False, "%s of %s is no longer visibly sized by %s() + %d (one push per category plus the " \
+                      "end, a resize, or a creation with that length)" % (
+                          g["local"], g["fn"].split("::")[-2], g["count"], g["plus"])
     if kind == "len_le":
         # fn returns Err when len(<local>) exceeds a constant <= bound
         fa = E.fa(g["fn"])
